@@ -10,7 +10,7 @@ def _pre(tier):
 ID = "C07"
 CFG = {
     "level": "exploration",
-    "engine": "E4 probes (no-libc executable probe-env in 3 link modes x debug/release, launched with posix_spawn)",
+    "engine": "E4 probes (no-libc executable probe-env in 3 link modes x debug/release + static PIE with REL relocations, launched with posix_spawn)",
     "package": "c07", "bin": "c07",
     "pre": _pre,
     # the code under test lives in the probe builds (debug and release of each link mode); the std driver's own
@@ -50,7 +50,7 @@ CFG = {
         "startup:entry-without-equals", "startup:empty-value", "startup:value-with-equals", "startup:non-utf8-argument",
         "startup:empty-argument", "startup:long-argument", "startup:non-utf8-value", "startup:empty-environment",
         "startup:build-dyn-debug", "startup:build-dyn-release", "startup:build-static-debug", "startup:build-static-release",
-        "startup:build-pie-debug", "startup:build-pie-release", "startup:relocation-slots-inspected", "startup:many-arguments", "startup:large-environment",
+        "startup:build-pie-debug", "startup:build-pie-release", "startup:build-pierel-debug", "startup:relocation-slots-inspected", "startup:many-arguments", "startup:large-environment",
         "lookup-var:key-is-proper-extension-of-a-name", "lookup-var-unix:key-is-proper-extension-of-a-name",
     ],
     "level_text": "exploration: seeded random sampling of (argv, envp, keys, build); no exhaustive sub-domain",
